@@ -47,6 +47,43 @@ UCL = "naunet/reactions/uclchemreaction.py"
 KEEP = ("_create_species",)        # helpers the rules treat as primitives when a parser is read in its folded form (pymodel.folded)
 
 
+def _parser(pkg, cls, meth="_parse_string"):
+    """The parser `cls.meth` in its folded form (pymodel.folded) with, in addition, the membership tests `x in TABLE` / `x not in TABLE`
+    on a module-level literal table (normalize.module_tables: bound once, never re-bound or edited in its module) spelled with the
+    literal: a token list moved to the top of the module reads like the list written in place.  Only the membership read is replaced
+    (the object does not escape there); a name the function binds itself is not a module-level read."""
+    import copy
+    from ..normalize import _DictTable
+    cache = pkg.__dict__.setdefault("_c06_parsers", {})
+    if (cls, meth) in cache:
+        return cache[(cls, meth)]
+    fn = pkg.folded(cls, meth, keep=KEEP)
+    # the tables of the modules the statements can come from: the classes of the MRO (helpers are put back from there); a name
+    # that means different tables in two of them is left alone
+    tabs, clash = {}, set()
+    for c in pkg.mro(cls):
+        ci = pkg.classes.get(c)
+        for k, v in (pkg.module_tables(ci.file) if ci is not None else {}).items():
+            if k in tabs and ast.dump(tabs[k]) != ast.dump(v):
+                clash.add(k)
+            tabs.setdefault(k, v)
+    own = {n.id for n in ast.walk(fn) if isinstance(n, ast.Name) and isinstance(n.ctx, (ast.Store, ast.Del))} | {a.arg for n in ast.walk(fn) if isinstance(n, ast.arguments) for a in n.posonlyargs + n.args + n.kwonlyargs}
+    tabs = {k: v for k, v in tabs.items() if k not in clash and k not in own}
+    if tabs and any(isinstance(n, ast.Name) and n.id in tabs for n in ast.walk(fn)):
+        class M(ast.NodeTransformer):
+            def visit_Compare(self, n):
+                self.generic_visit(n)
+                for i, (op, c) in enumerate(zip(n.ops, n.comparators)):
+                    if isinstance(op, (ast.In, ast.NotIn)) and isinstance(c, ast.Name) and c.id in tabs:
+                        t = tabs[c.id]
+                        elts = [e.elts[0] for e in t.elts] if isinstance(t, _DictTable) else t.elts
+                        n.comparators[i] = ast.copy_location(ast.Tuple(elts=[copy.deepcopy(e) for e in elts], ctx=ast.Load()), c)
+                return n
+        fn = ast.fix_missing_locations(M().visit(copy.deepcopy(fn)))
+    cache[(cls, meth)] = fn
+    return fn
+
+
 def check(ctx):
     _r1(ctx)
     _r2(ctx)
@@ -58,6 +95,115 @@ def check(ctx):
     from ..odemodel import model as odemodel
     from .c01 import reaction_sites
     reaction_sites(ctx, odemodel(ctx.tree), "R6", "R6")
+    _r7(ctx)
+
+
+_SPEC = re.compile(r"^(?:.?[<>=^])?[-+ ]?z?#?0?(?P<w>\d+)?[,_]?(?:\.(?P<p>\d+))?(?P<t>[a-zA-Z%])?$")
+
+
+def _r7(ctx):
+    """The window a reaction carries survives the package's own text formats: `Network.export()` writes the reactions with
+    Reaction.__format__(<format>) and `naunet render` reads them back with the parser of that format, so the text written for
+    temp_min / temp_max must give the same bound back through float().  Decided as a necessary condition on the format
+    specification: a bound that is a whole number of kelvin (every bound of every database) is written with ABSOLUTE precision
+    (fixed point f / F, an integer d, or str()/repr()), never with a RELATIVE one (e / E / g / G / n with fewer than 17 significant
+    digits rounds 1160450 to 1.16e+06: the two pieces of a fit that meet there are then both active, or neither, between the rounded
+    and the declared bound).  The arms are found by role: the value returned by Reaction.__format__ under `form == <the format
+    name of a reaction class>` (helpers and module-level formatting functions read as the expressions they return)."""
+    pkg = package(ctx.tree)
+    RF = pkg.cls("Reaction").file
+    pkg.method("Reaction", "__format__")
+    fn = pkg.expanded("Reaction", "__format__")
+    ctx.saw(RF, "Reaction.__format__")
+    W = (RF, fn.lineno)
+    if len(fn.args.args) != 2:
+        ctx.unrec("R7", "writer", W, "Reaction.__format__ does not take (self, <format name>)")
+        return
+    FORM, SELFP = ("param", fn.args.args[1].arg), ("param", fn.args.args[0].arg)
+
+    def fres(name):
+        f = pkg.functions.get((RF, name))
+        imp = pkg.imports.get(RF, {}).get(name)
+        if f is None and imp and imp[0].startswith(".") and imp[1]:
+            import os
+            base = os.path.dirname(RF)
+            for _ in range(len(imp[0]) - len(imp[0].lstrip(".")) - 1):
+                base = os.path.dirname(base)
+            mod = imp[0].lstrip(".")
+            f = pkg.functions.get((os.path.join(base, *mod.split(".")) + ".py", imp[1])) if mod else None
+        return f
+    fl = Flow(fn, RF, resolver=lambda name: pkg.resolve("Reaction", name)[1], func_resolver=fres)
+    rets = [f for f in fl.facts if f.kind == "return"]
+    if len(rets) != 1 or rets[0].value is None:
+        ctx.unrec("R7", "writer", W, f"expected one return in Reaction.__format__, found {len(rets)}")
+        return
+    v = simp(rets[0].value)
+    # the formats somebody reads back: the `format` name of the reaction classes
+    readers = {}
+    for c in ["Reaction"] + pkg.subclasses("Reaction"):
+        ci = pkg.classes.get(c)
+        node = ci.attrs.get("format") if ci is not None else None
+        if isinstance(node, ast.Constant) and isinstance(node.value, str):
+            readers.setdefault(node.value, c)
+    native = [k for k, c in readers.items() if c == "Reaction"]
+    tests = {x for x in walk(v) if isinstance(x, tuple) and len(x) == 3 and x[0] == "cmp" and x[1] == ("Eq",) and len(x[2]) == 2 and FORM in x[2]
+             and all(y == FORM or (y[0] == "const" and isinstance(y[1], str)) for y in x[2])}
+    named = {[y for y in x[2] if y != FORM][0][1] for x in tests}
+    if not native or native[0] not in named:
+        ctx.unrec("R7", "writer", W, "cannot find the arm of Reaction.__format__ that writes the package's own format (a test `form == <Reaction.format>`)")
+        return
+    n = 0
+    for F in sorted(named & set(readers)):
+        assume = {x: ([y for y in x[2] if y != FORM][0][1] == F) for x in tests}
+        assume[FORM] = True
+        arm = simp(peval(v, assume))
+        for attr in ("temp_min", "temp_max"):
+            A = ("attr", SELFP, attr)
+            key = f"{F}:{attr} written"
+            if not any(x == A for x in walk(arm)):
+                if F in native:
+                    ctx.unrec("R7", key, (RF, rets[0].line), f"cannot find where the {F!r} arm writes self.{attr}")
+                continue
+            fmts = [x for x in walk(arm) if isinstance(x, tuple) and len(x) == 4 and x[0] == "fmt" and any(y == A for y in walk(x[1]))]
+            def printed(x):
+                """occurrences of the attribute that can reach the text: outside format specifications' values and outside the
+                conditions that choose between texts"""
+                if x == A:
+                    return 1
+                if not isinstance(x, tuple) or not x or (len(x) == 4 and x[0] == "fmt"):
+                    return 0
+                return sum(printed(y) for i_, y in enumerate(x) if isinstance(y, tuple) and not (x[0] in ("phi", "ifexp") and i_ == 1))
+            loose = printed(arm)
+            if not fmts or loose > 0:
+                ctx.unrec("R7", key, (RF, rets[0].line), f"self.{attr} reaches the text of the {F!r} format in a way this rule cannot read (not a format specification)")
+                continue
+            for x in dict.fromkeys(fmts):
+                val, spec = simp(x[1]), x[2]
+                if val[0] == "call" and val[1] in (("global", "int"), ("global", "float")) and len(val[2]) == 1 and not val[3]:
+                    val = simp(val[2][0])          # int(x) keeps whole numbers
+                if isinstance(spec, tuple) and spec and spec[0] == "const":
+                    spec = spec[1]
+                m = _SPEC.match(spec) if isinstance(spec, str) else None
+                if val != A or not (spec is None or m):
+                    ctx.unrec("R7", key, (RF, rets[0].line), f"cannot read how self.{attr} is formatted: {show(x)[:80]}")
+                    continue
+                n += 1
+                t_, p_ = (m.group("t"), m.group("p")) if m else (None, None)
+                if t_ is None and p_ is not None:
+                    t_ = "g"                      # a precision without a type is the general format
+                if t_ in (None, "f", "F", "d", "s"):
+                    ctx.ok("R7", key, (RF, rets[0].line), f"{spec!r}: absolute precision, a whole number of kelvin is read back unchanged")
+                elif t_ in ("e", "E", "g", "G", "n"):
+                    digits = (int(p_) if p_ is not None else 6) + (1 if t_ in "eE" else 0)
+                    digits = max(digits, 1)
+                    ctx.check(digits >= 17, "R7", key, (RF, rets[0].line),
+                              f"{spec!r} keeps {digits} significant digits" if digits >= 17 else
+                              f"the {F!r} format writes self.{attr} with {digits} significant digits ({spec!r}): a bound such as 1160450 K is read back as another number by "
+                              f"{readers[F]}._parse_string, so after export -> render the window guard differs from the declared window (adjacent pieces of a fit overlap or leave a gap)",
+                              expected="fixed-point / integer / repr", found=show(x)[:80])
+                else:
+                    ctx.unrec("R7", key, (RF, rets[0].line), f"format type {t_!r} of self.{attr} is not one this rule knows")
+    ctx.floor("R7", "window columns of the written formats", n, 2, W)
 
 
 def _r5(ctx):
@@ -362,7 +508,8 @@ def _r1(ctx):
             ctx.bad("R1", key, (FILE, rets[0].line), "generated statement has the wrong guard shape",
                     expected=want[(has_lo, has_hi)].replace("(?P<", "<").replace(r">H\d+_)", ">"), found=lw.text)
             continue
-        hv = {k: (x[1] if x[0] == "fmt" and x[2] is None else x) for k, x in lw.holes.items()}
+        # ({x} and {x:d} / %d of an integer counter print the same digits)
+        hv = {k: (x[1] if x[0] == "fmt" and (x[2] is None or (x[2] == "d" and x[1][0] == "idx")) else x) for k, x in lw.holes.items()}
         g = m.groupdict()
         probs = []
         if hv[g["s"]] != ("param", "rate_sym"):
@@ -645,28 +792,80 @@ def number_regex_profile(pattern: str):
     return prof
 
 
-def _krome_regex_extractor(ctx, pkg, fn):
-    """The window parser was rewritten around a number-extracting regular expression: decide the necessary condition
-    that the extractor admits every exponent spelling float() and the KROME syntax admit."""
+def _krome_regex_extractor(ctx, pkg, fn, fl):
+    """The window parser was rewritten around a number-extracting regular expression: decide the necessary condition that the
+    extractor admits every exponent spelling float() and the KROME syntax admit (letters e / E / d / D, exponent sign + and -).
+    The extractors are found by ROLE on the reconstructed values (valueflow): a regular expression applied (match / search /
+    fullmatch / findall) to a piece of a field of the line, whose result reaches float().  A pattern that is anchored at both ends
+    refuses what it does not admit (an error, no wrong window); one that is not silently cuts the number where it stops matching."""
     ci = pkg.cls("KROMEReaction")
-    pats = []
-    for n in ast.walk(ci.node):
-        if isinstance(n, ast.Call) and ast.unparse(n.func) in ("re.compile", "re.search", "re.match", "re.findall", "re.fullmatch") and n.args and isinstance(n.args[0], ast.Constant) \
-                and isinstance(n.args[0].value, str) and "\\d" in n.args[0].value and "idx_" not in n.args[0].value:
-            flags = " ".join(ast.unparse(a) for a in n.args[1:]) + " ".join(ast.unparse(k.value) for k in n.keywords)
-            pats.append((n.args[0].value, n.lineno, flags))
-    src = ast.unparse(fn)
-    used = [p for p in pats if p[0] not in (r"(\d\.?)d(\-?\d)",)]
-    if not used or "float(" not in src:
-        ctx.unrec("R4", "KROME window parser", (KROME, fn.lineno), "the tmin/tmax branches were restructured beyond what the rule understands")
-        return
-    lowered = ".lower()" in src or ".casefold()" in src
-    uppered = ".upper()" in src and re.search(r"search\(\w+\.upper\(\)", src.replace(" ", "")) is not None
-    for pat, line, flags in used:
-        prof = number_regex_profile(pat)
-        if prof is None or not prof["has_digits"]:
+    RE_M = ("match", "search", "fullmatch", "findall", "finditer")
+    RE_ = ("global", "re")
+
+    def compiled(node):
+        """(pattern, flags text) of the AST `re.compile(<str>[, flags])`"""
+        if isinstance(node, ast.Call) and ast.unparse(node.func) == "re.compile" and node.args and isinstance(node.args[0], ast.Constant) and isinstance(node.args[0].value, str):
+            return node.args[0].value, " ".join(ast.unparse(a) for a in node.args[1:]) + " ".join(ast.unparse(k.value) for k in node.keywords), node.lineno
+        return None
+
+    def pat_of(x, flags):
+        fl_ = " ".join(show(a) for a in flags)
+        if x[0] == "const" and isinstance(x[1], str):
+            return x[1], fl_, None
+        if x[0] == "meth" and x[1] == RE_ and x[2] == "compile" and x[3] and x[3][0][0] == "const" and isinstance(x[3][0][1], str):
+            return x[3][0][1], fl_ + " ".join(show(a) for a in x[3][1:]) + " ".join(show(v_) for _, v_ in x[4]), None
+        if x[0] == "attr" and (x[1] in (("param", "self"), ("param", "cls")) or (x[1][0] == "global" and x[1][1] in pkg.classes)):
+            _, node = pkg.resolve_attr("KROMEReaction" if x[1][0] == "param" else x[1][1], x[2])
+            c = compiled(node) if node is not None else None
+            return (c[0], c[1] + " " + fl_, c[2]) if c else None
+        if x[0] == "global":
+            for st in pkg.modules[KROME].body:
+                if isinstance(st, ast.Assign) and len(st.targets) == 1 and isinstance(st.targets[0], ast.Name) and st.targets[0].id == x[1]:
+                    c = compiled(st.value)
+                    return (c[0], c[1] + " " + fl_, c[2]) if c else None
+        return None
+
+    def of_line(x):
+        return any(isinstance(y, tuple) and y and y[0] in ("elem", "sub", "item") and any(z == ("param", "react_string") for z in walk(y)) for y in walk(x))
+    hits, unread = {}, []
+    for f in fl.facts:
+        if f.value is None:
             continue
-        icase = "IGNORECASE" in flags or "re.I" in flags or "(?i)" in pat
+        for x in walk(simp(f.value)):
+            if not (isinstance(x, tuple) and len(x) == 4 and x[0] == "call" and x[1] == ("global", "float") and len(x[2]) == 1):
+                continue
+            for y in walk(x[2][0]):
+                if not (isinstance(y, tuple) and len(y) == 5 and y[0] == "meth" and y[2] in RE_M):
+                    continue
+                if y[1] == RE_:
+                    if len(y[3]) < 2:
+                        continue
+                    pobj, subject, flags = y[3][0], y[3][1], y[3][2:] + tuple(v_ for _, v_ in y[4])
+                else:
+                    if not y[3]:
+                        continue
+                    pobj, subject, flags = y[1], y[3][0], ()
+                if not of_line(subject):
+                    continue
+                pt = pat_of(simp(pobj), flags)
+                if pt is None:
+                    unread.append(show(pobj)[:60])
+                    continue
+                cases = {z[2] for z in walk(subject) if isinstance(z, tuple) and len(z) == 5 and z[0] == "meth" and z[2] in ("lower", "casefold", "upper") and not z[3]}
+                hits.setdefault((pt[0], pt[1]), (pt[2] or f.line, y[2], cases))
+    if not hits:
+        ctx.unrec("R4", "KROME window parser", (KROME, fn.lineno), "the tmin/tmax branches were restructured beyond what the rule understands"
+                  + (f" (a regular expression that could not be read: {unread[0]})" if unread else ""))
+        return
+    for (pat, flags), (line, how, cases) in hits.items():
+        prof = number_regex_profile(pat)
+        key = f"KROME:window number extractor {pat!r}"
+        if prof is None or not prof["has_digits"]:
+            ctx.unrec("R4", key, (KROME, line), "cannot read what the regular expression applied to a temperature limit admits")
+            continue
+        anchored = how == "fullmatch" or re.search(r"(?<!\\)(\$|\\Z)\)*$", pat) is not None
+        icase = "IGNORECASE" in flags or re.search(r"\bre\.I\b", flags) is not None or "(?i)" in pat
+        lowered, uppered = bool(cases & {"lower", "casefold"}), "upper" in cases
         letters = set(prof["exp_letters"])
         if icase:
             letters |= {c.swapcase() for c in letters}
@@ -674,16 +873,20 @@ def _krome_regex_extractor(ctx, pkg, fn):
         miss_l = need - letters
         miss_s = {"+", "-"} - prof["exp_sign"]
         ok = not miss_l and not miss_s
-        ctx.check(ok, "R4", f"KROME:window number extractor {pat!r}", (KROME, line),
+        if not ok and anchored:
+            ctx.ok("R4", key, (KROME, line), "the extractor is anchored at both ends: a spelling it does not admit is refused, not cut")
+            continue
+        ctx.check(ok, "R4", key, (KROME, line),
                   "the extractor admits every exponent spelling of a KROME temperature limit" if ok else
                   "the regular expression that picks the number out of a temperature limit does not admit "
                   + (f"the exponent letters {sorted(miss_l)}" if miss_l else "") + (" and " if miss_l and miss_s else "")
                   + (f"the exponent sign {sorted(miss_s)}" if miss_s else "")
                   + ": a limit such as 5.5E3 / 1.0e+01 is silently cut at the exponent (5.5 / 1.0) and the window guard is wrong",
-                  expected="[-+]?digits[.digits][(e|E|d|D)[-+]?digits]", found=f"exponent letters {sorted(prof['exp_letters'])}, exponent sign {sorted(prof['exp_sign'])}" + (" (subject lower-cased)" if lowered else ""))
-    ctx.unrec("R4", "KROME window parser:mapping", (KROME, fn.lineno),
-              "the restructured tmin/tmax handling (operator stripping, no-bound spellings, field -> attribute mapping) is not in a form this rule can decide") \
-        if all(o.outcome != "VIOLATION" for o in ctx.obs if o.rule == "R4" and "extractor" in o.key) else None
+                  expected="[-+]?digits[.digits][(e|E|d|D)[-+]?digits]", found=f"exponent letters {sorted(prof['exp_letters'])}, exponent sign {sorted(prof['exp_sign'])}"
+                  + (" (subject lower-cased)" if lowered else "") + (" (case ignored)" if icase else ""))
+    if all(o.outcome != "VIOLATION" for o in ctx.obs if o.rule == "R4" and "extractor" in o.key):
+        ctx.unrec("R4", "KROME window parser:mapping", (KROME, fn.lineno),
+                  "the restructured tmin/tmax handling (operator stripping, no-bound spellings, field -> attribute mapping) is not in a form this rule can decide")
 
 
 def _windows_unconditional(ctx, pkg):
@@ -691,34 +894,85 @@ def _windows_unconditional(ctx, pkg):
     from ..valueflow import Flow
     for cls in ("UMISTReaction", "KIDAReaction", "LEEDSReaction", "UCLCHEMReaction", "Reaction"):
         pkg.method(cls, "_parse_string")
-        fn = pkg.folded(cls, "_parse_string", keep=KEEP)
+        fn = _parser(pkg, cls)
         file = pkg.cls(cls).file
         fl = Flow(fn, file)
         for attr in ("temp_min", "temp_max"):
             st = [f for f in fl.facts if f.kind == "attrstore" and f.target == attr]
             if not st:
-                if any(isinstance(c, ast.Call) and (ast.unparse(c.func) in ("setattr", "vars") or (isinstance(c.func, ast.Attribute) and c.func.attr in ("update", "__setattr__"))) for c in ast.walk(fn)):
+                # set indirectly, or by somebody the rule cannot read: a helper of the class that could not be put back, anything
+                # that is handed the instance
+                if any(isinstance(c, ast.Call) and (ast.unparse(c.func) in ("setattr", "vars") or (isinstance(c.func, ast.Attribute) and c.func.attr in ("update", "__setattr__"))
+                                                    or (isinstance(c.func, ast.Attribute) and isinstance(c.func.value, ast.Name) and c.func.value.id in ("self", "cls") and c.func.attr not in KEEP
+                                                        and pkg.resolve(cls, c.func.attr)[1] is not None)
+                                                    or any(isinstance(a, ast.Name) and a.id == "self" for a in list(c.args) + [k.value for k in c.keywords])) for c in ast.walk(fn)) \
+                        or any(isinstance(n, ast.Name) and n.id == "super" for n in ast.walk(fn)):
                     ctx.unrec("R4", f"{cls}:{attr} stored", (file, fn.lineno), f"{cls}._parse_string has no plain store into self.{attr} (attributes are set indirectly)")
                 else:
                     ctx.bad("R4", f"{cls}:{attr} stored", (file, fn.lineno), f"{cls}._parse_string never stores {attr}")
                 continue
-            v = simp(st[-1].value)
-            if v[0] == "unop" and v[1] in ("USub", "UAdd") and v[2][0] == "const" and isinstance(v[2][1], (int, float)):
-                v = ("const", -v[2][1] if v[1] == "USub" else v[2][1])        # a signed literal is a constant
-            inner = v[2][0] if v[0] == "call" and v[1] == ("global", "float") and len(v[2]) == 1 and not v[3] else None
-            while inner is not None and inner[0] == "meth" and inner[2] == "strip" and not inner[3]:
-                inner = inner[1]          # float() ignores surrounding blanks anyway
-            ok = inner is not None and (inner[0] in ("item", "sub", "elem") or (inner[0] == "phi" and cls == "UCLCHEMReaction"))
             key = f"{cls}:{attr} = float(field)"
-            if ok:
-                ctx.ok("R4", key, (file, st[-1].line), f"self.{attr} is float(<the field of the record>)")
-            elif any(isinstance(x, tuple) and x and x[0] in ("phi", "ifexp", "bool") for x in walk(v)) or v[0] == "const" or len(st) > 1:
-                # a value chosen by a condition / a constant / a second store: the positive evidence of a fallback
-                ctx.bad("R4", key, (file, st[-1].line),
+            line_ = ("param", fn.args.args[1].arg) if len(fn.args.args) > 1 else None
+
+            def num(x):
+                """a numeric literal (signed literals included), else None"""
+                if x[0] == "unop" and x[1] in ("USub", "UAdd") and x[2][0] == "const" and isinstance(x[2][1], (int, float)) and not isinstance(x[2][1], bool):
+                    return -x[2][1] if x[1] == "USub" else x[2][1]
+                return x[1] if x[0] == "const" and isinstance(x[1], (int, float)) and not isinstance(x[1], bool) else None
+
+            def is_field(x):
+                """a piece cut from the line: an element / slice / unpacking target of (a view of) the parsed string"""
+                while x[0] == "meth" and x[2] in ("strip", "lstrip", "rstrip") and not x[3]:
+                    x = x[1]          # float() ignores surrounding blanks anyway
+                return x[0] in ("item", "sub", "elem") and (line_ is None or any(y == line_ for y in walk(x)))
+
+            def arms(x, conds=()):
+                """[(conditions, leaf)] of a value chosen by conditions; float(a if c else b) is float(a) if c else float(b)"""
+                x = simp(x)
+                if x[0] in ("phi", "ifexp"):
+                    return arms(x[2], conds + (x[1],)) + arms(x[3], conds + (x[1],))
+                if x[0] == "call" and x[1] == ("global", "float") and len(x[2]) == 1 and not x[3] and simp(x[2][0])[0] in ("phi", "ifexp"):
+                    i_ = simp(x[2][0])
+                    return arms(("call", x[1], (i_[2],), ()), conds + (i_[1],)) + arms(("call", x[1], (i_[3],), ()), conds + (i_[1],))
+                return [(conds, x)]
+
+            def kind(x):
+                if num(x) is not None:
+                    return "const"
+                if x[0] == "call" and x[1] == ("global", "float") and len(x[2]) == 1 and not x[3]:
+                    i_ = simp(x[2][0])
+                    return "field" if is_field(i_) else "const" if num(i_) is not None else "other"
+                return "other"
+
+            def on_content(c):
+                """the condition looks at the text of the line (a field is tested before it is converted)"""
+                return any(isinstance(y, tuple) and y and is_field(y) for y in walk(c))
+            last = st[-1]
+            # every store of the attribute with the conditions that tell it from the others (guards shared by all of them -- the
+            # "not a blank line" test -- say nothing about which value is stored)
+            shared = set(last.guards)
+            for o_ in st:
+                shared &= set(o_.guards)
+            lv = [(tuple(simp(g_) for g_, pol in o_.guards if (g_, pol) not in shared) + cs, x) for o_ in st for cs, x in arms(o_.value)]
+            kinds = [kind(x) for _, x in lv]
+            tests = [c for cs, _ in lv for c in cs]
+            found_ = "; ".join(dict.fromkeys(show(x)[:60] for _, x in lv))[:140]
+            if kinds == ["field"] and not tests:
+                ctx.ok("R4", key, (file, last.line), f"self.{attr} is float(<the field of the record>)")
+            elif any(k_ != "field" for k_ in kinds) and any(on_content(c) for c in tests):
+                # the field is looked at first and something else than float(<field>) is stored when the test fails: positive evidence
+                ctx.bad("R4", key, (file, last.line),
                         f"self.{attr} is not simply float(<field>): a limit the code does not like (fractional, exponent notation) silently becomes another value / 'unbounded', so the window guard is lost",
-                        expected="float(<field>)", found=show(v)[:100])
+                        expected="float(<field>)", found=found_ + " chosen by " + show([c for c in tests if on_content(c)][0])[:60])
+            elif kinds == ["const"] and not tests:
+                # the limit of the file is ignored: a constant is stored whatever the line says
+                ctx.bad("R4", key, (file, last.line), f"self.{attr} is a constant whatever the line says: the window of the file is lost", expected="float(<field>)", found=found_)
+            elif "field" in kinds and all(k_ in ("field", "const") for k_ in kinds) and cls == "UCLCHEMReaction" and not any(on_content(c) for c in tests):
+                # a constant on the arms chosen by something else than the text of the limit (UCLCHEM: the reaction type; WHICH
+                # constants is the freeze-out rule's business)
+                ctx.ok("R4", key, (file, last.line), f"self.{attr} is float(<the field of the record>) except where the reaction type overrides the window")
             else:
-                ctx.unrec("R4", key, (file, st[-1].line), f"cannot see that self.{attr} is float(<field of the record>): {show(v)[:100]}")
+                ctx.unrec("R4", key, (file, last.line), f"cannot see that self.{attr} is float(<field of the record>): {found_}")
 
 
 def _replace_chain(x):
@@ -743,10 +997,12 @@ def _krome_window_stores(ctx, pkg, fn):
     # (for / functools.reduce) unrolled, `key in TABLE` + setattr(self, TABLE[key], ..) spelled as the chain of plain stores
     def res(name):
         _, f = pkg.resolve("KROMEReaction", name)
-        return pkg.folded("KROMEReaction", name, keep=KEEP) if f is not None and name.startswith("_") and not name.startswith("__") and name not in KEEP else None
-    fl = Flow(pkg.folded("KROMEReaction", "_parse_string", keep=KEEP), KROME, resolver=res)
+        return _parser(pkg, "KROMEReaction", name) if f is not None and name.startswith("_") and not name.startswith("__") and name not in KEEP else None
+    # (small pure module-level helpers called by their bare name are read as the expressions they return)
+    fl = Flow(_parser(pkg, "KROMEReaction"), KROME, resolver=res, func_resolver=lambda name: pkg.functions.get((KROME, name)), raise_arms=True)
     want_ops = {"<", ">", ".LE.", ".GE.", ".LT.", ".GT."}
     want_none = {"N", "NONE", "N/A", "NO", ""}
+    ctx.__dict__["_c06_krome_flow"] = fl
     stores = [f for f in fl.facts if f.kind == "attrstore" and f.target in ("temp_min", "temp_max") and f.extra.get("obj") == ("param", "self")]
     if not stores:
         return None
@@ -786,7 +1042,13 @@ def _krome_window_stores(ctx, pkg, fn):
                  and any(isinstance(y, tuple) and len(y) == 5 and y[0] == "meth" and y[2] == "split" for y in walk(pos_of(x)[0]))}
         paired = [x for x in cands if pos_of(x)[1] == kp[1]]
         if len(paired) != 1:
-            if cands and not paired:
+            def shifted(pos):
+                """the position is the keyword's own position plus / minus a non-zero constant: a field of ANOTHER column, understood"""
+                if kp[1][0] != "loop" or not (isinstance(pos, tuple) and len(pos) == 4 and pos[0] == "binop" and pos[1] in ("Add", "Sub")):
+                    return False
+                a_, b_ = (pos[2], pos[3]) if pos[3][0] == "const" else (pos[3], pos[2]) if pos[1] == "Add" else (None, None)
+                return a_ is not None and b_[0] == "const" and isinstance(b_[1], int) and b_[1] != 0 and a_[0] in ("idx", "elem") and len(a_) == 3 and a_[2] == kp[1][1]
+            if cands and not paired and all(shifted(pos_of(x)[1]) for x in cands):
                 ctx.bad("R4", f"KROME:{which}:field", W, f"self.{f.target} is decoded from {show(sorted(cands, key=repr)[0])[:80]}, which is not the field at the position of the keyword {which!r}",
                         found=show(sorted(cands, key=repr)[0])[:100])
             else:
@@ -836,7 +1098,9 @@ def _krome_window_stores(ctx, pkg, fn):
             return None
         base, reps = _replace_chain(v[2][0])
         if base != val:
-            if any(isinstance(x, tuple) and x and x[0] in ("carried", "after", "acc", "unknown") for x in walk(base)) or not reps:
+            # another field of the line (understood, wrong) / anything else (a helper that could not be read, a value carried
+            # around a loop ...: not understood)
+            if base not in cands or any(isinstance(x, tuple) and x and x[0] in ("carried", "after", "acc", "unknown") for x in walk(base)):
                 return None
             ctx.bad("R4", f"KROME:{which}:field", W, f"self.{f.target} is decoded from {show(base)[:80]}, not from the field paired with the keyword {which!r}", found=show(base)[:100])
             continue
@@ -883,7 +1147,7 @@ def _r4(ctx):
     found = _krome_window_stores(ctx, pkg, fn)
     if found is None:
         # no plain store / not float(<replace chain over the field>): a number extractor (regular expression) or something else
-        _krome_regex_extractor(ctx, pkg, fn)
+        _krome_regex_extractor(ctx, pkg, fn, ctx.__dict__["_c06_krome_flow"])
         return
     ctx.floor("R4", "KROME window stores", found, 2, (KROME, fn.lineno))
     # defaults
@@ -905,7 +1169,7 @@ def _uclchem_freeze(ctx, pkg):
     (0, 30), whatever the arrangement (the fields overwritten before float(), a conditional expression, an if/else around the
     stores).  Decided by partial evaluation of the stored values under `reaction_type == UCLCHEM_FR`."""
     pkg.method("UCLCHEMReaction", "_parse_string")
-    ufn = pkg.folded("UCLCHEMReaction", "_parse_string", keep=KEEP)
+    ufn = _parser(pkg, "UCLCHEMReaction")
     ctx.saw(UCL, "UCLCHEMReaction._parse_string")
     ufl = Flow(ufn, UCL)
     W = (UCL, ufn.lineno)
@@ -1174,4 +1438,24 @@ BENIGN += [
     {"name": "pairs-list-walked-by-index", "file": T, "old": _STMT_COMP,
      "new": '        pairs = list(zip(tranges, rateexprs))\n        rateassign = []\n        for ridx in range(len(pairs)):\n            trange, rateexpr = pairs[ridx]\n'
             '            stmt = f"{rate_sym}[{ridx}] = {rateexpr};"\n            rateassign.append(f"if ({trange}) {{\\n{stmt}\\n}}" if trange else stmt)\n'},
+]
+# ---- wave 3: the window written to the package's own text format (R7); number-extracting regular expressions found by role (R4)
+RFILE = "naunet/reactions/reaction.py"
+_K_LIMIT_RE = ('    _limit_number = re.compile(r"[-+]?\\d+\\.?\\d*(?:[eEdD]%s\\d+)?")\n\n'
+               '    def _limit(self, text, default):\n        if text.upper() in ("N", "NONE", "N/A", "NO", ""):\n            return default\n'
+               '        found = self._limit_number.search(text)\n        if found is None:\n            raise ValueError(text)\n'
+               '        return float(found.group().replace("d", "e").replace("D", "e"))\n\n' + _K_CLS)
+_K_ARMS_RE = ('                elif key == "tmin":\n                    self.temp_min = self._limit(value, self.temp_min)\n'
+              '                elif key == "tmax":\n                    self.temp_max = self._limit(value, self.temp_max)\n')
+MUTANTS += [
+    {"name": "native-writer-bounds-in-exponent-notation", "file": RFILE, "old": 'f"{self.temp_max:9.2f}"', "new": 'f"{self.temp_max:9.2e}"', "rules": ["R7"]},
+    {"name": "native-writer-bounds-general-format-by-helper", "edits": [
+        {"file": RFILE, "old": "class Reaction(Component):\n", "new": 'def _column(value, width):\n    return "%9.6g" % value if abs(value) >= 1e6 else "%9.2f" % value\n\n\nclass Reaction(Component):\n'},
+        {"file": RFILE, "old": 'f"{self.temp_min:9.2f}"', "new": '_column(self.temp_min, 9)'}], "rules": ["R7"]},
+    {"name": "krome-limit-by-regex-helper-no-plus-in-exponent", "edits": [
+        {"file": KROME, "old": _K_CLS, "new": _K_LIMIT_RE % "-?"}, {"file": KROME, "old": _K_ARMS_OLD, "new": _K_ARMS_RE}], "rules": ["R4"]},
+]
+BENIGN += [
+    {"name": "native-writer-bounds-by-str-format", "file": RFILE, "old": 'f"{self.temp_min:9.2f}"', "new": '"{:9.2f}".format(self.temp_min)'},
+    {"name": "native-writer-bounds-by-percent-format", "file": RFILE, "old": 'f"{self.temp_max:9.2f}"', "new": '"%9.2f" % self.temp_max'},
 ]
